@@ -919,3 +919,37 @@ SUCCESS = ("NO_ERROR", "DATA_COMPLETE", "FILE_RETAINED")
 
 def is_success_fin(fin: tuple) -> bool:
     return tuple(fin[:3]) == SUCCESS
+
+
+def give_up_undrained(w, stop_kind: str = "EOF", **runner_kw) -> bool:
+    """The user starts a transfer and gives it up in the middle with reset() on both handlers: the transfer runs until a PDU of kind
+    ``stop_kind`` is next on the forward link, each side then makes one more call whose PDUs are *not* retrieved, and is reset. What is
+    retrieved afterwards is thrown away. Returns whether the stop point was reached. The handlers are IDLE afterwards."""
+    pr = Runner(w, max_expiries=30, max_rounds=2000, **runner_kw)
+    w.put()
+    reached = False
+    for _ in pr.steps():
+        if pr.s2d and wire.kind_of(pr.s2d[0]) == stop_kind:
+            reached = True
+            break
+    for ep, q in ((w.D, pr.s2d), (w.S, pr.d2s)):
+        ep.autodrain = False
+        try:
+            try:
+                if q:
+                    raw = q.pop(0)
+                    ep.sm(wire.parse(raw), {"kind": wire.kind_of(raw)})
+                else:
+                    ep.sm()
+            except Exception:  # noqa: BLE001
+                pass
+            ep.reset()
+        finally:
+            ep.autodrain = True
+        ep.drain()
+    for ep in (w.S, w.D):
+        if ep.h.state.name != "IDLE":
+            ep.reset()
+            ep.drain()
+        ep.outbox.clear()
+    return reached
